@@ -13,8 +13,6 @@ Inductive tag :=
 | TgUnaryOverPow        (* unary_minus_over_pow: '-'/'not' written in front of an unparenthesised power *)
 | TgHintLeak            (* literal_hint_leak: a literal receives the type hint of an enclosing cast/declaration *)
 | TgFloatMod            (* float_modulo_not_implemented *)
-| TgIfCond64            (* if_condition_not_i32: condition of a 64-bit integer type *)
-| TgBigU64Lit           (* u64_literal_above_i64_max *)
 (* dynamic *)
 | TgNarrowOverflow      (* narrow_int_arith_overflow: i8/i16/u8/u16 arithmetic leaves the range *)
 | TgSignedDivOverflow   (* signed_div_overflow: MIN / -1 at i32 / i64 *)
@@ -25,7 +23,7 @@ Inductive tag :=
 
 Definition tag_id (t : tag) : N :=
   match t with
-  | TgUnaryOverPow => 1 | TgHintLeak => 2 | TgFloatMod => 3 | TgIfCond64 => 4 | TgBigU64Lit => 5
+  | TgUnaryOverPow => 1 | TgHintLeak => 2 | TgFloatMod => 3
   | TgNarrowOverflow => 6 | TgSignedDivOverflow => 7 | TgSameRegCast => 8 | TgSignCast => 9
   | TgFloatToInt => 10 | TgPowExp63 => 11
   end%N.
@@ -72,21 +70,11 @@ Section Static.
     | EPow a b | EArith _ a b | ECmp _ a b | EAnd a b | EOr a b => float_mod_free a && float_mod_free b
     end.
 
-  Fixpoint lits_small (e : expr) : bool :=
-    match e with
-    | ELit _ z => z <=? 2 ^ 63 - 1
-    | ELitF _ _ | EVar _ => true
-    | EParen a | ENeg a | ENot a | ECast _ a => lits_small a
-    | EPow a b | EArith _ a b | ECmp _ a b | EAnd a b | EOr a b => lits_small a && lits_small b
-    end.
-
   Definition sflags_expr (hint : option ty) (e : expr) : list tag :=
     flag (negb (uop_free e)) TgUnaryOverPow ++ flag (negb (hint_ok hint e)) TgHintLeak ++
-    flag (negb (float_mod_free e)) TgFloatMod ++ flag (negb (lits_small e)) TgBigU64Lit.
+    flag (negb (float_mod_free e)) TgFloatMod.
 
-  Definition sflags_cond (c : expr) : list tag :=
-    sflags_expr None c ++
-    flag (match ety c with Some (TI (I64 | U64)) => true | _ => false end) TgIfCond64.
+  Definition sflags_cond (c : expr) : list tag := sflags_expr None c.
 
   Fixpoint sflags_stmt (s : stmt) : list tag :=
     match s with
